@@ -111,3 +111,63 @@ Theorem unscale_jacobian J scale delta : Forall (fun s => s <> 0) scale -> Foral
 Proof.
   intros Hs HJ Hd. rewrite !mv_rows, map_map. apply map_ext_in. intros row Hin. rewrite Forall_forall in HJ. apply unscale_row; auto.
 Qed.
+
+(* ---- (5) the assembly of Model.build_full_model:  r = c + J xopt,  g = 2 J'r,  H = 2 J'J  (J' = matT J) ---- *)
+Definition bfm (J : list rv) (c xo : rv) : rv * list rv :=
+  let r := @vmap2 ArithR Rplus c (@matvec ArithR J xo) in
+  (@vmap ArithR (Rmult 2) (@matvec ArithR (@matT ArithR J) r), map (@vmap ArithR (Rmult 2)) (@matmat ArithR (@matT ArithR J) J)).
+Definition rcol (J : list rv) (j : nat) : rv := @mcol ArithR J j.
+Lemma nth_map_seq (l : rv) : map (fun j => nth j l 0) (seq 0 (length l)) = l.
+Proof.
+  induction l as [|a l IH]; [reflexivity|]. cbn [length seq map nth]. f_equal. rewrite <- seq_shift, map_map. exact IH.
+Qed.
+Lemma sdot_map_plus {X} (f g : X -> R) (l : list X) : forall s, sdot (map (fun j => f j + g j) l) s = sdot (map f l) s + sdot (map g l) s.
+Proof. induction l as [|a l IH]; intros [|b s]; cbn; try lra. rewrite IH. ring. Qed.
+Lemma sdot_map_zero {X} (l : list X) : forall s, sdot (map (fun _ => 0) l) s = 0.
+Proof. induction l as [|a l IH]; intros [|b s]; cbn; try lra. rewrite IH. ring. Qed.
+Lemma rcol_cons row J j : rcol (row :: J) j = nth j row 0 :: rcol J j.
+Proof. reflexivity. Qed.
+(* exchange of the two sums:  sum_j (col_j . r) s_j  =  r . (J s) *)
+Lemma exchange_sums (J : list rv) n : forall r s, Forall (fun row => length row = n) J -> length r = length J -> length s = n ->
+  sdot (map (fun j => sdot (rcol J j) r) (seq 0 n)) s = sdot r (mv J s).
+Proof.
+  induction J as [|row J IH]; intros r s HJ Hr Hs.
+  - destruct r; [|discriminate]. cbn [rcol mcol map sdot]. rewrite (sdot_map_zero (seq 0 n) s). reflexivity.
+  - destruct r as [|ri r]; [discriminate|]. apply Forall_cons_iff in HJ as [Hrow HJ].
+    rewrite (map_ext _ (fun j => nth j row 0 * ri + sdot (rcol J j) r)) by (intros j; rewrite rcol_cons; reflexivity).
+    rewrite sdot_map_plus. rewrite IH by (auto; cbn in Hr; lia).
+    assert (Emv: mv (row :: J) s = sdot row s :: mv J s) by (rewrite !mv_rows; reflexivity).
+    rewrite Emv. cbn [sdot]. f_equal.
+    rewrite (map_ext _ (fun j => ri * nth j row 0)) by (intros; ring).
+    rewrite <- (map_map (fun j => nth j row 0) (Rmult ri)). rewrite <- Hrow, nth_map_seq. apply sdot_scale_l.
+Qed.
+Lemma rcol_length J j : length (rcol J j) = length J. Proof. apply map_length. Qed.
+Lemma ncols_rows (J : list rv) n : J <> [] -> Forall (fun row => length row = n) J -> @ncols ArithR J = n.
+Proof. destruct J as [|row J]; [congruence|]. intros _ H. apply Forall_cons_iff in H as [H _]. exact H. Qed.
+
+Lemma vadd_length (x : rv) : forall y, length x = length y -> length (vadd x y) = length x.
+Proof. induction x as [|a x IH]; intros [|b y] H; try discriminate; [reflexivity|]. unfold vadd in *. cbn [vmap2 length]. f_equal. apply IH. cbn in H. lia. Qed.
+Theorem build_full_model_gauss_newton (J : list rv) (c xo s : rv) n : J <> [] ->
+  Forall (fun row => length row = n) J -> length c = length J -> length s = n ->
+  let r := vadd c (mv J xo) in
+  let '(g, H) := bfm J c xo in
+  sdot g s + / 2 * sdot s (mv H s) = ssq (vadd r (mv J s)) - ssq r.
+Proof.
+  intros Hne HJ Hc Hs. cbv zeta. unfold bfm. fold (mv J xo). fold (vadd c (mv J xo)). set (r := vadd c (mv J xo)).
+  assert (Hr: length r = length J).
+  { unfold r. rewrite vadd_length by (rewrite mv_length; exact Hc). exact Hc. }
+  unfold matT, matmat, matvec. rewrite (ncols_rows J n Hne HJ). rewrite !map_map.
+  (* g . s *)
+  assert (Eg: sdot (@vmap ArithR (Rmult 2) (map (fun j => @dot ArithR (@mcol ArithR J j) r) (seq 0 n))) s = 2 * sdot r (mv J s)).
+  { unfold vmap. rewrite sdot_scale_l. f_equal. rewrite <- (exchange_sums J n r s HJ Hr Hs). f_equal. apply map_ext. intros j. apply rdot_sdot. }
+  (* H s, row by row *)
+  assert (EH: mv (map (fun i => @vmap ArithR (Rmult 2) (map (fun j => @dot ArithR (@mcol ArithR J i) (@mcol ArithR J j)) (seq 0 n))) (seq 0 n)) s =
+              map (fun i => 2 * sdot (rcol J i) (mv J s)) (seq 0 n)).
+  { rewrite mv_rows, map_map. apply map_ext. intros i. unfold vmap. rewrite sdot_scale_l. f_equal.
+    rewrite <- (exchange_sums J n (rcol J i) s HJ (rcol_length J i) Hs). f_equal. apply map_ext. intros j.
+    change (rdot (rcol J i) (rcol J j) = sdot (rcol J j) (rcol J i)). rewrite rdot_sdot. apply sdot_comm. }
+  rewrite Eg, EH. rewrite (sdot_comm s).
+  rewrite <- (map_map (fun i => sdot (rcol J i) (mv J s)) (Rmult 2)), sdot_scale_l.
+  rewrite (exchange_sums J n (mv J s) s HJ (mv_length J s) Hs).
+  rewrite ssq_vadd by (rewrite mv_length; exact Hr). rewrite <- ssq_sdot. lra.
+Qed.
